@@ -26,6 +26,11 @@ EXTENDS Table
 \* kept so that the model can be shown to bite (MCI_GLR_asfound.cfg)
 CONSTANT AsFoundFold
 
+\* FALSE: pending reductions are popped from the front (FIFO, as the code does);
+\* TRUE: from the back (LIFO).  Used to show that the forest does not depend on the
+\* order in which the reducer's work list is processed (MCI_GLR_lifo.cfg).
+CONSTANT PopLast
+
 EmptyGSS(T) == [nodes |-> <<[st |-> 0, pos |-> 0]>>, edges |-> <<>>,
                 sub |-> [q \in TStates(T) |-> 0]]
 
@@ -119,8 +124,8 @@ RECURSIVE Reducer(_, _, _, _, _)
 Reducer(T, X, la, pos, fuel) ==
   IF X.red = <<>> \/ X.abort THEN X
   ELSE IF fuel = 0 THEN [X EXCEPT !.hang = TRUE]
-  ELSE LET r == Head(X.red)
-           X1 == [X EXCEPT !.red = Tail(@)]
+  ELSE LET r == IF PopLast THEN X.red[Len(X.red)] ELSE Head(X.red)
+           X1 == [X EXCEPT !.red = IF PopLast THEN SubSeq(@, 1, Len(@) - 1) ELSE Tail(@)]
            ps == Paths(X1.g, r)
            RECURSIVE Each(_, _)
            Each(i, Y) == IF i > Len(ps) \/ Y.abort THEN Y ELSE Each(i + 1, ReducePath(T, Y, la, r, ps[i], pos))
